@@ -122,6 +122,17 @@ EnterTempParamsVM(v) ==                \* with vm.temp_params({p: v})
     /\ Push(Frame("temp_params_vm", IF m.bnd /\ ~RawSave THEN X(m.p) ELSE m.p))
     /\ m' = [m EXCEPT !.p = v]
     /\ UNCHANGED base /\ KeepCache
+EnterTempVar ==                        \* with tf_pwa.experimental.factor_system.temp_var(vm)
+    /\ Tick /\ Interleavable
+    /\ Push(Frame("temp_var", IF RawSave THEN m.p ELSE ReadP(m)))
+    /\ UNCHANGED <<m, base>> /\ KeepCache
+\* the user's code inside a block that will put the parameter back: assigns it
+RestoringKinds == {"temp_params_amp", "temp_params_vm", "temp_var"}
+InnerSetParam(v) ==
+    /\ Tick /\ Interleavable
+    /\ \E i \in DOMAIN stack : stack[i].kind \in RestoringKinds
+    /\ m' = [m EXCEPT !.p = v]
+    /\ UNCHANGED <<stack, base>> /\ KeepCache
 EnterMask(v) ==                        \* with amp.mask_params({p: v})
     /\ Tick /\ Interleavable
     /\ Push(Frame("mask_params", m.maskv))
@@ -196,6 +207,7 @@ CompStep ==                            \* one inner evaluation
 Restore(f, s) ==
     CASE f.kind = "temp_params_amp" -> [s EXCEPT !.p = f.saved]
       [] f.kind = "temp_params_vm" -> [s EXCEPT !.p = f.saved]
+      [] f.kind = "temp_var" -> [s EXCEPT !.p = f.saved]
       [] f.kind = "mask_params" -> [s EXCEPT !.maskv = f.saved]
       [] f.kind = "temp_used_res" ->
             IF ExactRestore THEN [s EXCEPT !.sel = f.saved.sel, !.notFull = f.saved.notFull]
@@ -267,6 +279,8 @@ Next ==
     \/ \E v \in PV : EnterTempParamsAmp(v) \/ EnterTempParamsVM(v) \/ EnterMask(v)
     \/ \E rs \in ResSets : EnterTempUsedRes(rs)
     \/ EnterGlsOne
+    \/ EnterTempVar
+    \/ \E v \in PV : InnerSetParam(v)
     \/ EnterTempConfig(1)
     \/ StartPartialWeight \/ StartInterference \/ StartFactorIteration
     \/ \E q \in ChainSeqs, b \in BOOLEAN : StartFitFractions(q, b)
